@@ -259,6 +259,16 @@ pub fn conc_worker(prop: &str, thorough: bool, base: u64, idx: u64, stride: u64,
     while s < n_scen {
         let first = s * SCHEDULES_PER_SCENARIO;
         let sseed = crate::check::run_seed_of(base, prop, first);
+        if prop == "C16" {
+            // the lock-only-neighbour differential, several histories per scenario slot
+            for d in 0..4u64 {
+                let dseed = crate::rng::derive(sseed, &[d, 0xD1FF]);
+                for (v, ops, ghosts) in ghost_differential(dseed, thorough, &mut stats) {
+                    out.add_scripted_violation(&v, dseed, &ops, &ghosts);
+                }
+                out.extra.entry("differential_histories".into()).and_modify(|x| *x += 1).or_insert(1);
+            }
+        }
         let p = plan(prop, sseed, s, thorough);
         let _ = std::fs::write(progress, format!("{sseed} {first}"));
         eng.begin_run(run_cfg(sseed, p.n_clients, &p.sched, None, false, false));
@@ -336,6 +346,126 @@ pub fn conc_worker(prop: &str, thorough: bool, base: u64, idx: u64, stride: u64,
     }
     out.wall_s = t0.elapsed().as_secs_f64();
     out
+}
+
+/// compare a scripted history whose last call suffers the given ghost fault with the same history without the fault
+pub fn diff_verdict(seed: u64, thorough: bool, ops: &[(u32, crate::ops::Op)], ghosts: &[(u32, u64)], stats: &mut BTreeMap<String, u64>) -> Option<Violation> {
+    let none = crate::hist::PropSel::default();
+    let mut cfg1 = crate::check::scripted_cfg("C16", seed, thorough, ops.to_vec(), ghosts, false);
+    cfg1.props = none.clone();
+    let r = crate::hist::run_history(&cfg1);
+    let i = r.ops.iter().position(|o| o.ghost.is_some())?;
+    let rec = &r.ops[i];
+    if rec.ret.starts_with("Err(ParentElementLocked)") {
+        *stats.entry("differential-ghost-turned-call-into-parent-locked".into()).or_default() += 1;
+        return None;
+    }
+    let mut cfg2 = crate::check::scripted_cfg("C16", seed, thorough, ops[..=i].to_vec(), &[], false);
+    cfg2.props = none;
+    let r2 = crate::hist::run_history(&cfg2);
+    let rec2 = r2.ops.get(i)?;
+    let class = if rec.ret != rec2.ret {
+        "return"
+    } else if rec.post_hash != rec2.post_hash {
+        "state"
+    } else {
+        *stats.entry("differential-ghost-without-observable-effect".into()).or_default() += 1;
+        return None;
+    };
+    let op = rec.op.as_ref()?;
+    Some(Violation {
+        prop: "C16".into(),
+        sig: format!("ghost-differential|{}|{}|{class}", rec.ghost.clone().unwrap_or_default(), op.k.name()),
+        detail: format!(
+            "{} with a lock-only neighbour ({}) returned `{}`; without it `{}`{}",
+            op.brief(),
+            rec.ghost.clone().unwrap_or_default(),
+            rec.ret.chars().take(100).collect::<String>(),
+            rec2.ret.chars().take(100).collect::<String>(),
+            if rec.post_hash != rec2.post_hash { "; the resulting model differs" } else { "" }
+        ),
+        at: rec.label,
+    })
+}
+
+/// C16, lock-only neighbours: a ghost never changes state, so a call that suffers a ghost fault must either return
+/// ParentElementLocked (with no effect, C11) or return and leave exactly what the same history does without the fault
+pub fn ghost_differential(seed: u64, thorough: bool, stats: &mut BTreeMap<String, u64>) -> Vec<(Violation, Vec<(u32, crate::ops::Op)>, Vec<(u32, u64)>)> {
+    let mut out = Vec::new();
+    let mut cfg = crate::profiles::hist_cfg("C16", seed, thorough);
+    cfg.props = crate::hist::PropSel::default();
+    let r = crate::hist::run_history(&cfg);
+    *stats.entry("differential-histories".into()).or_default() += 1;
+    let Some(i) = r.ops.iter().position(|o| o.ghost.is_some()) else { return out };
+    *stats.entry("differential-histories-with-a-fired-ghost".into()).or_default() += 1;
+    let ops: Vec<(u32, crate::ops::Op)> = r.ops[..=i].iter().filter_map(|o| o.op.clone().map(|op| (o.label, op))).collect();
+    let ghosts = r.ghost_fired_at.clone();
+    if let Some(v) = diff_verdict(seed, thorough, &ops, &ghosts, stats) {
+        out.push((v, ops, ghosts));
+    }
+    out
+}
+
+#[derive(Serialize, Deserialize, Clone, Debug)]
+pub struct DiffReplay {
+    pub kind: String,
+    pub property: String,
+    pub sig: String,
+    pub detail: String,
+    pub run_seed: u64,
+    pub thorough: bool,
+    pub ops: Vec<(u32, crate::ops::Op)>,
+    pub ghost_at: Vec<(u32, u64)>,
+}
+
+pub fn make_diff_replay(v: &VRec, thorough: bool) -> Option<PathBuf> {
+    let (ops, ghosts) = v.script.clone()?;
+    let mut stats = BTreeMap::new();
+    let mut ops = ops;
+    let hit = |ops: &[(u32, crate::ops::Op)], stats: &mut BTreeMap<String, u64>| diff_verdict(v.first_seed, thorough, ops, &ghosts, stats).filter(|x| x.sig == v.sig);
+    hit(&ops, &mut stats)?;
+    // drop set-up calls that are not needed (the faulted call is the last one and stays)
+    let mut i = 2.min(ops.len().saturating_sub(1));
+    while i + 1 < ops.len() {
+        let mut cand = ops.clone();
+        cand.remove(i);
+        if hit(&cand, &mut stats).is_some() {
+            ops = cand;
+        } else {
+            i += 1;
+        }
+    }
+    let fin = hit(&ops, &mut stats)?;
+    let rep = DiffReplay { kind: "diff".into(), property: "C16".into(), sig: v.sig.clone(), detail: fin.detail, run_seed: v.first_seed, thorough, ops, ghost_at: ghosts };
+    let dir = verif_dir().join("replays").join("C16");
+    let _ = std::fs::create_dir_all(&dir);
+    let path = dir.join(format!("{:016x}.json", hash_str(&v.sig)));
+    std::fs::write(&path, serde_json::to_string_pretty(&rep).ok()?).ok()?;
+    Some(path)
+}
+
+pub fn replay_diff(rep: &DiffReplay) -> i32 {
+    let mut stats = BTreeMap::new();
+    println!("history of {} calls; the last one suffers the ghost fault {:?}", rep.ops.len(), rep.ghost_at);
+    for (l, o) in &rep.ops {
+        println!("  #{l} {}", o.brief());
+    }
+    match diff_verdict(rep.run_seed, rep.thorough, &rep.ops, &rep.ghost_at, &mut stats) {
+        Some(v) => {
+            println!("  !! {} {} :: {}", v.prop, v.sig, v.detail);
+            if v.sig == rep.sig {
+                println!("VIOLATION property=C16 reproduced exactly");
+                1
+            } else {
+                println!("a different violation occurred");
+                1
+            }
+        }
+        None => {
+            println!("the recorded violation did not occur");
+            0
+        }
+    }
 }
 
 // ---------------- replay ----------------
@@ -551,7 +681,7 @@ pub fn check_conc(prop: &str, thorough: bool) -> i32 {
         eprintln!("worker crash: {msg} (seed {seed})");
         exit = 2;
     }
-    let make = |v: &VRec| make_conc_replay(prop, &v.sig, v.first_seed, thorough);
+    let make = |v: &VRec| if v.script.is_some() { make_diff_replay(v, thorough) } else { make_conc_replay(prop, &v.sig, v.first_seed, thorough) };
     let (e2, known_seen, n_viol) = if prop == "C15" { classify_edges(&total, &make) } else { classify(prop, &total, &make) };
     if e2 == 1 || (e2 != 0 && exit == 0) {
         exit = e2;
